@@ -87,6 +87,10 @@ video_sink_thread(struct video_sink_s* const self)
 Error:
     LOGE("[stream %d]: SINK: Exiting thread (Error)", self->stream_id);
     self->sig_stop_source(self);
+    // Nobody reads this queue any more: refuse writes so that a writer blocked
+    // on a full queue returns instead of waiting for space forever. Writes are
+    // accepted again when the stream is (re)started.
+    channel_accept_writes(&self->in, 0);
     channel_read_unmap(&self->in, &self->reader, 0);
     storage_stop(self->storage);
     self->is_running = 0;
